@@ -77,12 +77,16 @@ class IceFabric:
         return "".join(self.rng.choice(ALNUM) for _ in range(n))
 
     def find_peer(self, conn):
+        # all transports of one peer connection share ICE credentials: the candidates decide which is which
         for other in self.conns:
-            if other is conn or other._closed:
+            if other is conn or other._closed or other.node == conn.node:
+                continue
+            if other.peer not in (None, conn):
                 continue
             if (other._local_username == conn.remote_username and other._local_password == conn.remote_password
                     and other.remote_username == conn._local_username
-                    and other.remote_password == conn._local_password):
+                    and other.remote_password == conn._local_password
+                    and (conn._knows(other) or other._knows(conn))):
                 return other
         return None
 
